@@ -73,6 +73,17 @@ chk("C11", "model_checking",
     "TLA+ specs Flips.tla / FlipsBig.tla / EtaRad.tla model-checked exhaustively by TLC + replay of every terminal state into xfab.detector",
     "DESIGN.md section 7 C11")
 
+chk("C20", "model_checking",
+    "Checks.tla models the switch and every guard site (8 guarded APIs x input classes, tools/laue/symmetry). TLC enumerates every "
+    "behaviour with 2 (quick) / 3 (thorough) API events over a 69-event alphabet plus simulated behaviours of 14 events and checks "
+    "SwitchIsLastValid, NeverRejectsValid, OffMeansOff, OnRejectsInvalid and the action property InvalidAssignKeeps; every behaviour is "
+    "replayed into the real package with outcome class, switch state and (for valid inputs) the returned value compared after each "
+    "event. In the other direction hypothesis histories of up to 30 events are recorded from the real package and validated by TLC "
+    "against Trace_Checks.tla; two corrupted canary traces must be rejected on every run.",
+    "Trusted: TLC; classification of an exception as the check's own (ValueError raised from xfab/checks.py); concretisation of input classes; python without -O.",
+    "TLA+ spec Checks.tla model-checked by TLC; behaviours replayed into xfab; implementation traces validated against Trace_Checks.tla",
+    "DESIGN.md section 7 C20")
+
 ALL = ["C%02d" % i for i in range(1, 21)]
 
 
